@@ -71,7 +71,7 @@ func runBackend(c *vk.Ctx, backend string, nCases int) {
 
 func oneCase(c *vk.Ctx, srv *drive.Srv, backend string, i int, modes []drive.Mode) {
 	r := c.Rand(fmt.Sprintf("case-%s-%d", backend, i))
-	gc, store := sem.Generate(c, srv, r, fmt.Sprintf("c01-%s-%d", backend, i), gen.Options{Wide: i%4 == 3, Algebra: i%5 == 2})
+	gc, store := sem.Generate(c, srv, r, fmt.Sprintf("c01-%s-%d", backend, i), gen.Options{Wide: i%4 == 3, Algebra: i%5 == 2, Hierarchy: i%6 == 4})
 	if gc == nil {
 		return
 	}
